@@ -218,7 +218,46 @@ static void rt_event(const JSON& tree, uint32_t opts) {
     assigned += "]";
     if (dump(tree) != before) copydeep = false;
   }
+  // copy assignment whose source is the destination itself, or a value INSIDE the destination (a = a.at(i),
+  // a = a.at(i).at(k)): the result is a copy of the source as it was
+  string selfres = "{\"t\":\"skip\"}", childsel = "[", childres = "[";
+  if (opts == 0 || opts == 8) {
+    JSON s = tree;
+    const JSON& ref = s;
+    s = ref;
+    selfres = dump(s);
+    bool compact = before.compare(0, 12, "{\"t\":\"nest\"") == 0;
+    auto child_of = [](JSON& v, size_t i, const JSON& shape) -> JSON& {
+      // i-th child in the iteration order of `shape` (the tree the event logs), looked up in v
+      if (shape.is_list()) return v.at(i);
+      auto it = shape.as_dict().begin();
+      std::advance(it, i);
+      return v.at(it->first);
+    };
+    if (!compact && (tree.is_list() || tree.is_dict()) && tree.size() > 0) {
+      size_t n = tree.size();
+      bool firstc = true;
+      for (size_t i : {(size_t)0, n / 2, n - 1}) {
+        JSON c = tree;
+        c = child_of(c, i, tree);
+        childsel += string(firstc ? "" : ",") + "[" + to_string(i + 1) + "]";
+        childres += string(firstc ? "" : ",") + dump(c);
+        firstc = false;
+        // a grandchild (positions are those of the logged tree: the member is looked up by key in the copy)
+        const JSON& ch = tree.is_list() ? tree.at(i) : *std::next(tree.as_dict().begin(), i)->second;
+        if ((ch.is_list() || ch.is_dict()) && ch.size() > 0) {
+          JSON g = tree;
+          g = child_of(child_of(g, i, tree), ch.size() - 1, ch);
+          childsel += ",[" + to_string(i + 1) + "," + to_string(ch.size()) + "]";
+          childres += "," + dump(g);
+        }
+      }
+    }
+  }
+  childsel += "]";
+  childres += "]";
   vt::J j;
+  j.raw("selfres", selfres).raw("childsel", childsel).raw("childres", childres);
   j.str("e", "rt").num("opts", opts).raw("tree", before).raw("text", js(text)).raw("pdef", res_json(pd)).raw("pstrict", res_json(ps));
   j.num("resort", resort).num("copyeq", copyeq).num("copydeep", copydeep).raw("assigned", assigned);
   tr.emit(j);
